@@ -1600,7 +1600,7 @@ class Interp:
                 finally:
                     self.frames.pop()
             return fc.model(self, env, args, kwargs)
-        if fc.inline:
+        if fc.inline or (fc.inline_calls and not self.spec_depth):
             if self.call_depth > 12:
                 raise Unsupported("inline depth exceeded at %s" % fc.key)
             self.frames.append(Frame(fc, env))
